@@ -442,8 +442,9 @@ class Unit:
             for f in self.functions:
                 if f.invalid:
                     continue
-                for _b, _i, _st, g in _call_sites(f):
-                    s.add(g.id)
+                for site in _call_sites(f):
+                    if site[4] == "call":
+                        s.add(site[3].id)
             self._inl_callees = s
         return self._inl_callees
 
